@@ -85,7 +85,9 @@ pub fn run(c: &Case) -> Outcome {
     let mut t_send = 0u64;
     for k in &cuts { script.push(Act::Send(stream[prev..*k].to_vec())); prev = *k; if c.gap > 0 { script.push(Act::Pause(c.gap)); t_send += c.gap; } }
     let t_silent = 120 + t_send + 350;
-    script.push(Act::Pause(350 + 150));
+    // the silent period: from the server's last send (Mark) the receive thread has 350 ms; the observer
+    // takes its snapshot then and the server goes on 150 ms after having been told so (Await)
+    script.push(Act::Mark); script.push(Act::Await(6000)); script.push(Act::Pause(150));
     if !c.endpack && !endb.is_empty() { script.push(Act::Send(endb.clone())); }
     if c.end == "dpuhold" { script.push(Act::Pause(2600)); script.push(Act::Close); }
     match c.end.as_str() { "notify" => { script.push(Act::CloseNotify); script.push(Act::Pause(50)); script.push(Act::Close); } "close" => script.push(Act::Close), _ => {} }
@@ -101,6 +103,7 @@ pub fn run(c: &Case) -> Outcome {
     let (a, b) = UnixStream::pair().expect("socketpair");
     let fd = a.as_raw_fd() as usize;
     let rawlog = Arc::new(Mutex::new(vec![]));
+    *conn::MARK.lock().unwrap() = None; conn::SNAPPED.store(false, std::sync::atomic::Ordering::SeqCst);
     let th = std::thread::spawn(move || conn::serve(b, srv, vec![0; 16], rawlog));
     let mut out = Outcome { silent: vec![], fin: vec![], exited: false, status: "ok".into(), lens, quiet, inputs_done: 0, inputs_asked: c.inputs, alens, das, ca: 0 };
     let mut con = Connector::new().screen(cfg.w, cfg.h).credentials(cfg.dom.clone(), cfg.user.clone(), cfg.pw.clone()).use_nla(false).layout(conn::layout_of(cfg.lay)).name(cfg.name.clone());
@@ -114,13 +117,17 @@ pub fn run(c: &Case) -> Outcome {
     // concurrent input from this thread while the receive thread runs
     let mut got: Vec<u16> = vec![];
     let mut snap: Option<Vec<u16>> = None;
-    let deadline_total = t_silent + 150 + 900;
+    let mut deadline_total = t_silent + 6000 + 150 + 900;
     let mut n_in = 0;
     loop {
         let el = t0.elapsed().as_millis() as u64;
+        let marked = conn::MARK.lock().unwrap().map(|m| m.elapsed().as_millis() as u64);
         while let Ok(b) = rx.try_recv() { got.push(b.dest_left); }
-        if snap.is_none() && el >= t_silent { snap = Some(got.clone()); }
-        if c.inputs && n_in < 6 && el > 130 && el < t_silent {
+        if snap.is_none() && (marked.map_or(false, |m| m >= 350) || el >= t_silent + 6000) {
+            snap = Some(got.clone()); deadline_total = el + 150 + 900;
+            conn::SNAPPED.store(true, std::sync::atomic::Ordering::SeqCst);
+        }
+        if c.inputs && n_in < 6 && el > 130 && snap.is_none() {
             if let Ok(mut g) = shared.try_lock() { let _ = g.try_write(RdpEvent::Pointer(PointerEvent { x: n_in, y: 1, button: PointerButton::None, down: false })); n_in += 1; }
         }
         if handle.is_finished() && snap.is_some() { out.exited = true; break; }
